@@ -177,6 +177,29 @@ def ring(ctx, P):
             elif len(ne) == 1 and 'explicit' in g:
                 pairs.add(frozenset(ne | {'explicit'}))
         want = {frozenset({'pkesk', 'skesk'}), frozenset({'pkesk', 'explicit'}), frozenset({'skesk', 'explicit'})}
+        # within a group EVERY collected key is compared with the reference: the comparison sits in a loop (or an all()/any() closure)
+        # over the group, and no element-dropping iterator adaptor is applied to a vector of session keys
+        within = set()
+        for i, t in b.calls(r'PartialEq::(eq|ne)$'):
+            if 'PlainSessionKey' in (t['f'].get('selfty') or '') and i in inloop and len(t['args']) >= 2:
+                g = set()
+                for a_ in t['args'][:2]:
+                    g |= set(k for k, rx in SRC.items() if has_origin(b.operand_origins(a_), rx))
+                within |= (g - {'explicit'}) or g
+        for cr in ctx.f.closures_of(b.path):
+            cb = ctx.wrap(cr)
+            if any('PlainSessionKey' in (t['f'].get('selfty') or '') for i, t in cb.calls(r'PartialEq::(eq|ne)$')):
+                # which group feeds the adaptor that takes this closure
+                for i, t in b.calls(r'Iterator::(all|any)$'):
+                    if any(isinstance(a_, dict) and a_.get('l') is not None for a_ in t['args']):
+                        g = set(k for k, rx in SRC.items() if has_origin(b.operand_origins(t['args'][0]), rx))
+                        within |= (g - {'explicit'}) or g
+        dropping = [i for i, t in b.calls(r'Iterator::(skip|take|step_by|skip_while|take_while|filter|nth|last)$')
+                    if any(has_origin(b.operand_origins(t['args'][0]), rx) for rx in SRC.values())]
+        ctx.check(P + ':ring:within-group-all-compared', 'R-dom', 'inside each group every collected session key is compared with the reference (a loop / all() over the whole group, no skip / take / filter on it)',
+                  {'pkesk', 'skesk', 'explicit'} <= within and not dropping, function=b.path, table=sorted(within),
+                  site=site(b, dropping[0]) if dropping else None,
+                  missing=('an element-dropping iterator adaptor is applied to collected session keys' if dropping else 'groups with a complete comparison: %s' % sorted(within)))
         gs2 = [g for g, _ in guard_switches(b, late_oks, [r'callty:.*PartialEq::(ne|eq)@.*PlainSessionKey'])]
         ctx.check(P + ':ring:cross-group-consistency', 'R-dom', 'session keys obtained from PKESKs, from SKESKs and given explicitly are compared across the three groups (rejecting) before one is returned',
                   want <= pairs and bool(gs2), function=b.path, table=sorted(sorted(x) for x in pairs),
